@@ -169,8 +169,10 @@ class Ctx:
             if stdout_path:
                 fout.close()
         if p.returncode not in ok_codes:
-            raise Infra("harness exited %d: %s\n%s" % (
-                p.returncode, " ".join(argv), p.stderr.decode(errors="replace")[-4000:]))
+            err = p.stderr.decode(errors="replace")
+            if len(err) > 6000:      # a Go runtime abort names its cause in the first lines, before the goroutine dump
+                err = err[:2500] + "\n[...]\n" + err[-3000:]
+            raise Infra("harness exited %d: %s\n%s" % (p.returncode, " ".join(argv), err))
         out = None if stdout_path else p.stdout.decode(errors="replace")
         return p.returncode, out
 
